@@ -16,11 +16,12 @@ struct R; struct A; struct B; struct C;
 using FSM = M::Root<R, A, B, C>;
 static std::string* trace;
 struct R : FSM::State { void planSucceeded(FullControl&) { *trace += "planSucceeded "; } void planFailed(FullControl&) { *trace += "planFailed "; } };
-struct A : FSM::State { void enter(PlanControl&) { *trace += "A.enter "; } void exit(PlanControl&) { *trace += "A.exit "; } void update(FullControl& c) { *trace += "A.update "; c.succeed(); } };
+struct A : FSM::State { int ticks = 0;   // user data held by the state object itself: part of what a copy of the machine copies
+	void enter(PlanControl&) { *trace += "A.enter "; } void exit(PlanControl&) { *trace += "A.exit "; } void update(FullControl& c) { *trace += "A.update "; ++ticks; c.succeed(); } };
 struct B : FSM::State { void enter(PlanControl&) { *trace += "B.enter "; } void exit(PlanControl&) { *trace += "B.exit "; } void update(FullControl& c) { *trace += "B.update "; c.fail(); } };
 struct C : FSM::State { void enter(PlanControl&) { *trace += "C.enter "; } void exit(PlanControl&) { *trace += "C.exit "; } };
 static std::string observe(const FSM::Instance& m) {
-	std::string s = "active=" + std::to_string(m.activeStateId()) + " prev=" + std::to_string(m.previousTransition().destination) + "/" + std::to_string(m.previousTransition().origin)
+	std::string s = "A.ticks=" + std::to_string(m.access<A>().ticks) + " active=" + std::to_string(m.activeStateId()) + " prev=" + std::to_string(m.previousTransition().destination) + "/" + std::to_string(m.previousTransition().origin)
 		+ (m.previousTransition().payload() ? "/p" + std::to_string(*m.previousTransition().payload()) : "") + " plan=[";
 	auto pl_ = m.plan(); for (auto it = pl_.begin(); it; ++it) s += std::to_string(it->origin) + ">" + std::to_string(it->destination) + (it->payload() ? "/p" + std::to_string(*it->payload()) : "") + ",";
 	return s + "]";
